@@ -202,7 +202,7 @@ def main():
             rp = json.load(f)
         # the model driver must correspond to the CURRENT working tree
         import translate
-        for sec in mod.SECTIONS:
+        for sec in translate.SECTIONS.all():
             fname, text, br = translate.SECTIONS[sec]()
             translate.write_if_changed(os.path.join(translate.GEN, fname), text)
         rc, out, _ = C.lake_build(["driver"])
@@ -219,9 +219,13 @@ def main():
     try:
         import translate
         report = {}
-        for sec in mod.SECTIONS:
+        # every section is regenerated (the driver links all of them; none may be left over from
+        # an earlier run on a different tree); only the property's own sections are judged
+        for sec in translate.SECTIONS.all():
             fname, text, br = translate.SECTIONS[sec]()
             translate.write_if_changed(os.path.join(translate.GEN, fname), text)
+            if sec not in mod.SECTIONS:
+                continue
             report[sec] = br
             try:
                 with open(os.path.join(C.LEAN, "Reference", fname)) as rf:
